@@ -135,7 +135,13 @@ func NumWorkers() int {
 }
 
 func NewPool() *Pool {
-	return &Pool{N: NumWorkers(), TaskTimeout: 10 * time.Minute, MemKB: 6 << 20, Recycle: 400}
+	// The task time-out only guards against a worker that hangs; it is wall-clock, so it must be far above
+	// what a task needs on a loaded machine. Thorough tasks are up to two orders of magnitude bigger.
+	tt := 10 * time.Minute
+	if os.Getenv("VERIF_TIER") == "thorough" {
+		tt = 45 * time.Minute
+	}
+	return &Pool{N: NumWorkers(), TaskTimeout: tt, MemKB: 6 << 20, Recycle: 400}
 }
 
 func (p *Pool) start() (*worker, error) {
